@@ -20,6 +20,7 @@ class Tests:
         self.pv = pv
         self.bool_edges = []
         self.disc_edges = []
+        self.int_edges = []
         self._scan()
 
     def _scan(self):
@@ -96,6 +97,10 @@ class Tests:
                     expr = ("val", pv.local(cur))
                 else:
                     continue
+            if f.local_ty(l).get("k") in ("uint", "int") and expr[0] in ("call", "val"):
+                # `match n { 0 => .., 1 => .., _ => .. }` on an integer: value edges, not a two-way test
+                self.int_edges.append((expr if expr[0] == "call" else expr[1], {v: tg for v, tg in zip(t["vals"], t["tgts"])}, t["otherwise"], bi))
+                continue
             tb = fb = None
             for v, tg in zip(t["vals"], t["tgts"]):
                 if v == 0:
@@ -121,6 +126,19 @@ class Tests:
                 out.append((tb, sb))
             if pred(atom, False):
                 out.append((fb, sb))
+        return out
+
+    def int_blocks(self, expr_pred, value_pred):
+        """(block, test block) reached only when an integer-valued expression satisfying expr_pred
+        has a value satisfying value_pred (listed arms only; the `_` arm when every value it stands
+        for cannot be decided is skipped)."""
+        out = []
+        for e, arms, other, sb in self.int_edges:
+            if not expr_pred(e):
+                continue
+            for v, tg in arms.items():
+                if value_pred(v):
+                    out.append((tg, sb))
         return out
 
     def disc_blocks(self, place_pred, variant):
